@@ -26,10 +26,26 @@ Oracle (independent of the model, from the statement): let N = named paths.
     descendant is versioned afterwards.  Nothing versioned before is lost.
     A named control file must be refused.
 
-Finding on the unchanged code: git-tree-named-control-file (GitWorkingTree.smart_add
-versions an explicitly named file inside .git).
+    The same call repeated versions nothing more (idempotence, observed only).
 
-Mutants: see the report (filled in after the mutation self-test).
+Findings on the unchanged code (families computed from the failing case):
+    git-tree-named-control-file: GitWorkingTree.smart_add versions an explicitly named file
+      inside .git (bzr raises ForbiddenControlFileError); the model has a flag for the repaired
+      behaviour and the harness probes which one the tree implements (`git_fmt_char`);
+    bzr-named-dir-below-blocked-named-dir: `add D0 D` with D inside D0 and a nested tree or
+      conflict helper between them: D is dropped from the scan list and never scanned.
+
+Mutants this was built against (scratch worktree; caught by the oracle with a concrete case):
+  m1 bzr walk: ignored *directories* no longer skipped (`and not isdir`)      -> needs an ignored dir with content
+  m2 bzr walk: conflict-helper test only for directories (helper files added)
+  m3 bzr walk: sub_tree true only for unversioned, un-named directories (nested trees entered)
+  m4 git walk: ignore test after the directory test (ignored directories entered)
+     -> needs an ignored directory whose files are not themselves ignored (`old~/a`); seed dependent
+        before the ignored-directory scenario was added to the generator, caught with seeds 0 and 2 now
+  m5 bzr phase 1: named ignored files skipped
+  m6 git walk: conflict-helper test not applied to files
+  h1 harmless: set comprehension for conflicts_related, inverted if/else with continue (clean)
+  fix: ForbiddenControlFileError for named control paths in GitWorkingTree.smart_add (clean, mode `H`)
 """
 import os
 import shutil
@@ -38,8 +54,9 @@ from vlib import env
 from checks import c46
 
 THEOREMS = [
-    "pass_shape", "versioned_untouched", "add_named", "add_exact", "add_nothing_else",
-    "walk_child_exact", "pass_idempotent_partial", "git_named_control_file_witness",
+    "smartAdd_ok", "smartAdd_error", "pass_shape", "add_exact", "versioned_untouched", "add_named",
+    "add_named_git", "walk_child_exact", "idle_child_exact", "add_nothing_else",
+    "git_named_control_file_witness", "bzr_named_dir_below_blocked_witness",
 ]
 RULE = ("case = (format, layout, named paths (<= 2, or the root), recurse); all single named paths of every layout "
         "are enumerated with recurse on and off, pairs are sampled; non-trivial = something becomes versioned and "
@@ -59,6 +76,27 @@ def add_conflicts_to_spec(rng, spec):
     spec = dict(spec, entries=[list(e) for e in spec["entries"]], conflicts=[])
     used = set(e[0] for e in spec["entries"])
     dirs = [""] + [e[0] for e in spec["entries"] if e[1] == "d"]
+    if rng.random() < 0.45:
+        # an ignored directory (user ignore `*~`, or a rule of the tree) with plain files in it,
+        # optionally with one versioned file (so that the directory itself is / counts as versioned)
+        d = rng.choice(dirs)
+        pre = d + "/" if d else ""
+        name = rng.choice(["bak~", "old~", "build", "ig"])
+        p = pre + name
+        if p not in used and not any(e[0].startswith(p + "/") for e in spec["entries"]):
+            if name == "build" and "build" not in spec["rules"]:
+                spec["rules"] = spec["rules"] + ["build"]
+            if name == "ig" and "ig/" not in spec["rules"]:
+                spec["rules"] = spec["rules"] + ["ig/"]
+            pv = d == "" or next(e[2] for e in spec["entries"] if e[0] == d) or spec["fmt"] == "git"
+            v = pv and rng.random() < 0.4
+            spec["entries"].append([p, "d", bool(v and spec["fmt"] != "git")])
+            spec["entries"].append([p + "/a", "f", bool(v)])
+            spec["entries"].append([p + "/README", "f", False])
+            spec["entries"].append([p + "/s", "d", False])
+            spec["entries"].append([p + "/s/b.txt", "f", False])
+            used.update([p, p + "/a", p + "/README", p + "/s", p + "/s/b.txt"])
+            dirs.append(p)
     for _ in range(rng.choice([0, 1, 1, 2])):
         d = rng.choice(dirs)
         pre = d + "/" if d else ""
@@ -173,6 +211,21 @@ def run_real(root, names, recurse):
     return "ok"
 
 
+_GITMODE = []
+
+
+def git_fmt_char():
+    """'G': GitWorkingTree.smart_add versions an explicitly named control file (as found);
+    'H': it refuses with ForbiddenControlFileError (repaired) — probed on an empty git tree"""
+    if not _GITMODE:
+        base = env.fresh_dir("c11probe")
+        root = os.path.join(base, "P")
+        shutil.copytree(c46._templates()["git"], root, symlinks=True)
+        _GITMODE.append("H" if run_real(root, [".git/HEAD"], False) == "E:ForbiddenControlFile" else "G")
+        shutil.rmtree(base, ignore_errors=True)
+    return _GITMODE[0]
+
+
 def under(a, b):
     return a == "" or b == a or b.startswith(a + "/")
 
@@ -284,7 +337,8 @@ def run_layout(ctx, spec, viol, cases, lines, outs, choices=None):
         shutil.copytree(root, target, symlinks=True)
         res = run_real(target, names, recurse)
         case = dict(spec=spec, names=names, recurse=recurse)
-        line = "add %s %s %s %s" % ("B" if fmt == "2a" else "G", "T" if recurse else "F", ",".join(names), layout)
+        line = "add %s %s %s %s" % ("B" if fmt == "2a" else git_fmt_char(), "T" if recurse else "F",
+                                     ",".join(names), layout)
         if res == "ok":
             from breezy.workingtree import WorkingTree
             after = versioned_set(WorkingTree.open(target), snap, fmt)
@@ -294,6 +348,12 @@ def run_layout(ctx, spec, viol, cases, lines, outs, choices=None):
             lost = before - after
             if lost:
                 viol.append((case, "paths no longer versioned after add: %r" % sorted(lost), None))
+            # idempotence (not proved, observed): the same call again versions nothing more
+            if run_real(target, names, recurse) == "ok":
+                again = versioned_set(WorkingTree.open(target), snap, fmt)
+                if again != after:
+                    viol.append((case, "second identical add changed the versioned set: +%r -%r"
+                                 % (sorted(again - after), sorted(after - again)), None))
             ctl_named = [n for n in names if n == own_ctl or n.startswith(own_ctl + "/")]
             if any(n in after for n in ctl_named):
                 fam = "git-tree-named-control-file" if fmt == "git" and all(
@@ -353,7 +413,8 @@ def run(ctx):
         for fn in sorted(os.listdir(cdir)):
             if fn.endswith(".json"):
                 specs.append(json.load(open(os.path.join(cdir, fn)))["spec"])
-    for _ in range(ctx.pick(9, 80)):
+    ctx.extra["git_named_control_file"] = {"G": "versioned (as found)", "H": "refused"}[git_fmt_char()]
+    for _ in range(ctx.pick(7, 70)):
         for fmt in ("2a", "git"):
             specs.append(add_conflicts_to_spec(ctx.rng, c46.gen_spec(ctx.rng, fmt)))
     for spec in specs:
